@@ -109,6 +109,26 @@ fn canonical_order(leaf: &mut Leaf, tag: &str, r: &TaxReport) {
     leaf.ob_bool(&format!("{tag}.holdings-by-ticker"), h == sh, &format!("{h:?}"));
 }
 
+/// (date, ticker) of every line of one section of the plain-text report (`dd/mm/yyyy KIND [qty] TICKER ...`)
+fn text_section_keys(text: &str, header: &str, ticker_at: usize) -> Vec<(chrono::NaiveDate, String)> {
+    let mut out = Vec::new();
+    let mut inside = false;
+    for line in text.lines() {
+        if line.starts_with("# ") {
+            inside = line.trim() == header;
+            continue;
+        }
+        if !inside || line.trim().is_empty() {
+            continue;
+        }
+        let toks: Vec<&str> = line.split_whitespace().collect();
+        if let (Some(d), Some(t)) = (toks.first().and_then(|d| chrono::NaiveDate::parse_from_str(d, "%d/%m/%Y").ok()), toks.get(ticker_at)) {
+            out.push((d, t.to_string()));
+        }
+    }
+    out
+}
+
 pub fn c16(sk: &Skeleton) -> Leaf {
     let mode = Mode::parse(&sk.opt_str("mode").unwrap_or_else(|| "QPF".into()));
     let lines = ledger::instantiate(sk, "lines", &mode);
@@ -132,6 +152,21 @@ pub fn c16(sk: &Skeleton) -> Leaf {
             // the text report is a function of the report alone
             let (ta, tb) = (cgt_formatter_plain::format(a), cgt_formatter_plain::format(b));
             leaf.ob_bool("C16.text-line-structure", ta.lines().count() == tb.lines().count(), "plain-text reports have different numbers of lines");
+            // echoed transactions and asset events of the text report: by date, then ticker
+            for (section, ticker_at) in [("# TRANSACTIONS", 3usize), ("# ASSET EVENTS", 2usize)] {
+                let keys = text_section_keys(&tb, section, ticker_at);
+                let mut sorted = keys.clone();
+                sorted.sort();
+                leaf.ob_bool(&format!("C16.text-echo-by-date-then-ticker[{}]", &section[2..]), keys == sorted, &format!("{keys:?}"));
+                let want = txs
+                    .iter()
+                    .filter(|t| {
+                        let trade = matches!(t.operation, cgt_core::Operation::Buy { .. } | cgt_core::Operation::Sell { .. });
+                        if ticker_at == 3 { trade } else { !trade }
+                    })
+                    .count();
+                leaf.ob_bool(&format!("C16.text-echo-complete[{}]", &section[2..]), keys.len() == want, &format!("{} echoed lines for {want} ledger lines", keys.len()));
+            }
         }
         (Err(x), Err(y)) => {
             leaf.outcome = "err".into();
